@@ -4,7 +4,7 @@
    clamped (clamp = true, the repaired code) — anywhere in the closed range g[0] <= x <= g[last].  So with the
    clamp the theorems cover points exactly on the lowest line: the point inserted at longitude -pi by the
    antimeridian split on a global grid, a pole on a grid starting at -pi/2, altitude 0. *)
-From Coq Require Import ZArith List Bool Reals Lra.
+From Coq Require Import ZArith List Bool Reals Lra Lia.
 From AV Require Import lib.Num model.C04_Model proofs.C04_Proofs proofs.C05_Sorting proofs.C05_Cells proofs.C05_Proofs.
 Import ListNotations.
 Local Open Scope R_scope.
@@ -169,3 +169,101 @@ Theorem C05_antimeridian_point_as_coded_refuted :
     <> (lon_cross - lon0) * (lat1 - lat0).
 Proof. exact crossing_lat_as_coded_refuted. Qed.
 Print Assumptions C05_antimeridian_point_as_coded_refuted.
+
+(* ---------- points on the lowest line (clamped index), trajectory parts, one antimeridian crossing ---------- *)
+
+(* the closed range is really covered: a point exactly on the lowest line is admissible under the clamp *)
+Example C05_lowest_line_point_admissible : okx true [0; 1; 2] 0 /\ ~ inside [0; 1; 2] 0.
+Proof.
+  split.
+  - right. split; [reflexivity|]. unfold inside_c, glen, gn. simpl. split; [lia|lra].
+  - unfold inside, gn. simpl. lra.
+Qed.
+
+(* every segment of a trajectory part with admissible points: containment, path order, chain shape *)
+Theorem C05_part_contained :
+  forall clamp (glat glon : list R) (pts : list (R * R)),
+    incr glat -> incr glon -> Forall (pt_ok clamp glat glon) pts ->
+    Forall (geom_ok glat glon) (@part_geometry RNum clamp glat glon pts).
+Proof. exact part_contained. Qed.
+Print Assumptions C05_part_contained.
+
+(* ONE antimeridian crossing: [geometry] yields two parts, and every segment of BOTH parts — including the two
+   created by the crossing, whose inserted end point sits on longitude +-pi (the lowest line of a global grid)
+   — satisfies containment, path order and chain shape *)
+Theorem C05_crossing_contained :
+  forall clamp fixdl (glat glon galt gtime : list R) (pts : list (R * R)) alts times states,
+    incr glat -> incr glon ->
+    count_nonzero (@crossings RNum (map snd pts)) = 1%nat ->
+    let cr := @crossings RNum (map snd pts) in
+    let i := first_nonzero cr O in
+    let sg := nth i cr 0%Z in
+    let latx := @crossing_lat RNum fixdl sg (nth i pts (0, 0)) (nth (S i) pts (0, 0)) in
+    Forall (pt_ok clamp glat glon) pts ->
+    okx clamp glat latx -> okx clamp glon (@exit_lon RNum sg) -> okx clamp glon (@entry_lon RNum sg) ->
+    exists r1 r2,
+      @geometry RNum clamp fixdl glat glon galt gtime pts alts times states = (1%Z, i, [r1; r2]) /\
+      Forall (geom_ok glat glon) (snd r1) /\ Forall (geom_ok glat glon) (snd r2).
+Proof. exact crossing_contained. Qed.
+Print Assumptions C05_crossing_contained.
+
+(* the repaired crossing latitude lies between the latitudes of the crossing segment (hence is admissible
+   whenever they are) *)
+Theorem C05_crossing_latitude_between :
+  forall sg (lat0 lon0 lat1 lon1 : R),
+    - @pi RNum <= lon0 <= @pi RNum -> - @pi RNum <= lon1 <= @pi RNum ->
+    (sg = (-1)%Z -> lon1 - lon0 < - @pi RNum) -> (sg <> (-1)%Z -> @pi RNum < lon1 - lon0) ->
+    Rmin lat0 lat1 <= @crossing_lat RNum true sg (lat0, lon0) (lat1, lon1) <= Rmax lat0 lat1.
+Proof. exact crossing_lat_between. Qed.
+Print Assumptions C05_crossing_latitude_between.
+
+(* lengths_match for the crossing case: both parts *)
+Theorem C05_crossing_lengths_match :
+  forall clamp fixdl (glat glon galt gtime : list R) (pts : list (R * R)) (alts times : list R)
+         (states : list (list R)),
+    count_nonzero (@crossings RNum (map snd pts)) = 1%nat ->
+    length alts = length pts -> length times = length pts ->
+    Forall (fun v => length v = length pts) states ->
+    exists i r1 r2,
+      @geometry RNum clamp fixdl glat glon galt gtime pts (Some alts) (Some times) states = (1%Z, i, [r1; r2]) /\
+      lengths_ok r1 /\ lengths_ok r2.
+Proof. exact crossing_lengths_match. Qed.
+Print Assumptions C05_crossing_lengths_match.
+
+(* share = length share, tied to the cell: every value of a segment is v * |piece| / |segment| for a piece lying
+   in the closed cell the value is attributed to *)
+Theorem C05_values_in_attributed_cells :
+  forall clamp (glat glon : list R) (lat0 lon0 lat1 lon1 : R),
+    incr glat -> incr glon ->
+    okx clamp glat lat0 -> okx clamp glat lat1 -> okx clamp glon lon0 -> okx clamp glon lon1 ->
+    forall (dist : R * R -> R * R -> R) fix3 (v : R),
+      dist (lat0, lon0) (lat1, lon1) <> 0 ->
+      Forall2 (fun c val => exists ab, In ab (pairs (chain clamp glat glon lat0 lon0 lat1 lon1)) /\
+                                       piece_in_cell glat glon c ab /\
+                                       val = v * dist (fst ab) (snd ab) / dist (lat0, lon0) (lat1, lon1))
+              (cells clamp glat glon lat0 lon0 lat1 lon1)
+              (@seg_values RNum fix3 v (dist (lat0, lon0) (lat1, lon1))
+                           (map (fun ab => dist (fst ab) (snd ab))
+                                (pairs (chain clamp glat glon lat0 lon0 lat1 lon1)))).
+Proof. exact values_in_cells. Qed.
+Print Assumptions C05_values_in_attributed_cells.
+
+(* indexed form: output position (pieces of segments 0..j-1) + r, r < pieces of segment j, carries the cell
+   index of the altitude / time of point j, the START point of segment j (C05_axis_cell_contains_start /
+   C05_lowest_line_fixed say that this cell contains it), and the state value of point j *)
+Theorem C05_alt_time_at_position :
+  forall clamp (glat glon : list R) (pts : list (R * R)) (g vals : list R) j r,
+    let cs := counts (@part_geometry RNum clamp glat glon pts) in
+    length vals = length pts -> (j < length cs)%nat -> (r < nth j cs 0)%nat ->
+    nth (list_sum (firstn j cs) + r) (@axis_indices RNum clamp g vals cs) 0%Z
+    = @cell_index RNum clamp g (nth j vals 0).
+Proof. exact axis_index_at. Qed.
+Print Assumptions C05_alt_time_at_position.
+
+Theorem C05_state_at_position :
+  forall clamp (glat glon : list R) (pts : list (R * R)) (var : list R) j r,
+    let cs := counts (@part_geometry RNum clamp glat glon pts) in
+    length var = length pts -> (j < length cs)%nat -> (r < nth j cs 0)%nat ->
+    nth (list_sum (firstn j cs) + r) (@state_values RNum var cs) 0 = nth j var 0.
+Proof. exact state_value_at. Qed.
+Print Assumptions C05_state_at_position.
